@@ -67,8 +67,14 @@ def _affinity_fn(rng):
     return fn
 
 
-def exec_sim(repo, argv, side, hashseed, rng, cwd, npulses=10, disk=None, pyflags=()):
-    spec = dict(repo=repo, verif=VERIF, side=side, argv=argv, disk=disk or {}, npulses=npulses)
+def exec_sim(repo, argv, side, hashseed, rng, cwd, npulses=10, disk=None, pyflags=(), root=None):
+    """`root`: private directory tree of the simulated machine this process
+    runs on (working, temporary, home directory); shared by the runs of one
+    group, so a later run finds what an earlier one left."""
+    if root and (side.get('environ') or {}).get('_cwd'):
+        # one working directory for all runs on this machine
+        side = dict(side, environ={k: v for k, v in side['environ'].items() if k != '_cwd'})
+    spec = dict(repo=repo, verif=VERIF, side=side, argv=argv, disk=disk or {}, npulses=npulses, root=root)
     if pyflags:
         S.fired('interpreter_flags')
     p = subprocess.run([PY] + list(pyflags) + [os.path.join(HERE, 'launcher.py')], input=json.dumps(spec),
@@ -160,12 +166,22 @@ def _run_on_tty(cmd, env, cwd, out_tty=True, err_tty=False, in_tty=False, preexe
                  b''.join(chunks['stderr']).decode(errors='replace'))
 
 
-def exec_real(repo, argv, hashseed, rng, scratch, tty=False, optimize=False, streams=None):
-    """Unpatched run with real clock and real files in a scratch directory."""
-    d = tempfile.mkdtemp(prefix='real', dir=scratch)
+def exec_real(repo, argv, hashseed, rng, scratch, tty=False, optimize=False, streams=None, workdir=None):
+    """Unpatched run with real clock and real files in a scratch directory.
+    With `workdir` the run happens in that (caller-owned) directory tree,
+    which also holds its temporary and home directory: what earlier runs
+    left there - output files, anything else - is this run's history."""
+    d = workdir or tempfile.mkdtemp(prefix='real', dir=scratch)
     try:
         env = child_env(rng, hashseed)
         env['PYTHONPATH'] = repo
+        if workdir:
+            for sub, keys in (('tmp', ('TMPDIR', 'TEMP', 'TMP')), ('home', ('HOME',))):
+                os.makedirs(os.path.join(d, sub), exist_ok=True)
+                for k in keys:
+                    env[k] = os.path.join(d, sub)
+            env['XDG_CACHE_HOME'] = os.path.join(d, 'home', '.cache')
+            S.fired('real_run_in_used_directory')
         if optimize:
             env['PYTHONOPTIMIZE'] = '1'
             S.fired('interpreter_flags')
@@ -195,7 +211,8 @@ def exec_real(repo, argv, hashseed, rng, scratch, tty=False, optimize=False, str
         S.fired('unpatched_real_run')
         return dict(outcome=outcome, stdout=p.stdout, stderr=p.stderr, files=files)
     finally:
-        shutil.rmtree(d, ignore_errors=True)
+        if not workdir:
+            shutil.rmtree(d, ignore_errors=True)
 
 
 def gen_cmdline(rng, env=None, kinds=None, force_opt=None, want=(), sweep=None):
@@ -217,3 +234,14 @@ def gen_cmdline(rng, env=None, kinds=None, force_opt=None, want=(), sweep=None):
     if rng.random() < 0.2:
         argv += ['-T']
     return argv, m
+
+
+def sibling_cmdline(rng, argv, m):
+    """The command line of a sibling model (one change) with the same
+    frequency, field and output options: what a user runs in the same
+    directory between two runs of `argv`."""
+    sib = G.variant_model(rng, m)
+    k = len(m.argv())
+    i = 2                           # after '-f', f
+    assert argv[i:i + k] == m.argv()
+    return argv[:i] + sib.argv() + argv[i + k:]
